@@ -7,7 +7,7 @@ from present import Presenter
 
 MODEL_TARGETS = ["model/Ser.vo", "spec/Denote.vo"]
 COQ_TARGETS = ["props/C13.vo"]
-THEOREMS = [("C13", ["C13_perm", "C13_perm_variant", "C13_perm_map", "C13_schema_order", "C13_nopanic", "C13_perm_nested", "C13_perm_split", "C13_perm_union_named", "C13_perm_union_typed"])]
+THEOREMS = [("C13", ["C13_perm", "C13_perm_variant", "C13_perm_map", "C13_schema_order", "C13_nopanic", "C13_perm_nested", "C13_perm_split", "C13_perm_union_named", "C13_perm_union_typed", "C13_duplicate_field"])]
 PROOF_FILES = ["proofs/RecordProofs.v", "props/C13.v", "proofs/RecordPermProofs.v"]
 TRUSTED_BASE = [
     "Coq 8.16.1 kernel; no axioms (Print Assumptions: closed)",
